@@ -251,9 +251,12 @@ func (t *Tree) Set(k, v uint64) {
 	root := t.set(1, k, v)
 	if root.isFull() {
 		right := t.split(1)
+		rightID := right.pageID()
 		left := t.newNode(root.bits())
-		// Re-read the root as the underlying buffer for tree might have changed during split.
+		// Re-read the root and the right node as the underlying buffer for tree might have
+		// changed during split and newNode.
 		root = t.node(1)
+		right = t.node(rightID)
 		copy(left[:keyOffset(maxKeys)], root)
 		left.setNumKeys(root.numKeys())
 
